@@ -9,7 +9,10 @@ from .. import values as V
 from . import common
 from . import pool
 
-RULE = ("universal monitor: every vector any workload obtains - results of the arithmetic (C05), None (C06), indexing (C07), join (C09/C10), "
+from . import recompute
+
+RULE = ("[plus the shared recompute-after-history monitor: this property's operations evaluated on long-lived objects between in-place writes / renames must equal the same operations on fresh objects rebuilt from the current contents] "
+	"universal monitor: every vector any workload obtains - results of the arithmetic (C05), None (C06), indexing (C07), join (C09/C10), "
 	"aggregate (C12), window (C13), sort (C14) and CSV (C19) workloads, every pooled vector and table column after every step of the object-pool "
 	"histories, and the results of a dedicated workload aimed at the weak points (reflected + with wider scalars / lists, unary - + abs on bool / int "
 	"/ float / complex with None, << with wider values / None / strings, multi-value assignments whose k-th value needs promotion or is incompatible, "
@@ -24,7 +27,7 @@ ASSUMPTIONS = [
 EXHAUSTIVE = {"flag": False, "scope": "the dedicated weak-point matrix is complete over its kinds/forms; everything else is sampled"}
 ANCHOR_FUNCS = ["vector:Vector._elementwise_operation", "vector:Vector.__radd__", "vector:Vector._unary_operation", "vector:Vector.__lshift__",
 	"vector:Vector.__setitem__", "vector:Vector.cast", "vector:Vector.fillna", "vector:Vector.dropna", "typing:validate_scalar"]
-REQUIRED_STRATA = {"truth": 20000, "writeback": 3000, "weak-point": 500, "steps": 1000}
+REQUIRED_STRATA = {"recompute": 200, "truth": 20000, "writeback": 3000, "weak-point": 500, "steps": 1000}
 
 _seen = {"n": 0}
 
@@ -121,6 +124,13 @@ def run_weak(chk, spec):
 		"cast-callable": lambda: v.cast(lambda x: (x,)),
 		"fillna-same": lambda: v.fillna(rng.choice(common.ARITH_VALUES[kind])),
 		"fillna-wider": lambda: v.fillna(w),
+		"fillna-integral-wider": lambda: v.fillna({"bool": 1, "int": 0.0, "float": complex(1, 0), "date": datetime(2020, 1, 31)}.get(kind, w)),
+		"lshift-vector-none": lambda: v << Vector([rng.choice(common.ARITH_VALUES[kind]), None]),
+		"lshift-vector-same": lambda: v << Vector([rng.choice(common.ARITH_VALUES[kind])]),
+		"and-int": lambda: v & 1, "or-vector": lambda: v | v, "xor-list": lambda: v ^ [1] * n,
+		"new-equal-narrower-first": lambda: (Vector.new(0, 2), Vector.new(0.0, 2), Vector.new(False, 2), Vector.new(0j, 2))[rng.randrange(1, 4)],
+		"agg-stdev": lambda: Table([Vector(["a", "b", "a"][:n] + ["a"] * max(0, n - 3), name="k"), Vector([1.5] * n, name="x")]).aggregate(over="k", stdev_over="x", mean_over="x"),
+		"win-stdev": lambda: Table([Vector(["a", "b", "a"][:n] + ["a"] * max(0, n - 3), name="k"), Vector([2] * n, name="x")]).window(over="k", stdev_over="x", count_over="x"),
 		"fillna-none": lambda: v.fillna(None),
 		"dropna": lambda: v.dropna(),
 		"isna": lambda: v.isna(),
@@ -190,11 +200,12 @@ def run_history(chk, spec):
 	m.run()
 
 
-RUNNERS = {"weak": run_weak, "assign": run_assign, "history": run_history}
+RUNNERS = {"weak": run_weak, "assign": run_assign, "history": run_history, "recompute": recompute.runner("C03")}
 
 WEAK_OPS = ["radd-scalar", "radd-list", "rsub-scalar", "rmul-scalar", "rtruediv", "rpow", "add-wider-scalar", "add-wider-vector", "neg", "pos", "abs", "invert",
 	"lshift-wider", "lshift-none", "lshift-str", "lshift-list-mixed", "lshift-vector", "rlshift", "cast-str", "cast-float", "cast-int", "cast-bool", "cast-callable",
-	"fillna-same", "fillna-wider", "fillna-none", "dropna", "isna", "unique", "sort", "to_object", "T", "slice", "mask", "pluck", "new", "new-typesafe", "isinstance",
+	"fillna-same", "fillna-wider", "fillna-none", "fillna-integral-wider", "lshift-vector-none", "lshift-vector-same", "and-int", "or-vector", "xor-list",
+	"new-equal-narrower-first", "agg-stdev", "win-stdev", "dropna", "isna", "unique", "sort", "to_object", "T", "slice", "mask", "pluck", "new", "new-typesafe", "isinstance",
 	"compare", "matmul-table", "table-sum", "table-max", "table-mean"]
 
 
@@ -203,6 +214,7 @@ def setup(chk):
 
 
 def run(chk):
+	recompute.add_cases(chk, "C03")
 	rng = chk.rng
 	chk.observers.append(truth)
 	idx = 0
